@@ -68,6 +68,17 @@ theorem sliceArray_ok (size f t : Int) (h0 : 0 ≤ size) (hk : size ≤ 65535) :
     simp [rd, wr] at ha
     rcases ha with rfl | rfl <;> simp [Access.inBounds, allocOf] <;> omega
 
+/-- the `(int)` narrowing in front of slice_array is exact after the 64-bit clamps of f_range -/
+theorem range_arr_narrowing_exact (size from1 to1 : Int) (h0 : 0 ≤ size) (hk : size ≤ 65535) :
+    let from2 := if guard_range_arr_from_neg from1 then 0 else from1
+    let to2 := if guard_range_arr_to_hi to1 size then size - 1 else to1
+    let to3 := if guard_range_arr_to_lo to2 then -1 else to2
+    let from3 := if guard_range_arr_from_hi from2 size then size else from2
+    trunc32 from3 = from3 ∧ trunc32 to3 = to3 := by
+  have g := g_range_arr_clamps size from1 to1 h0 hk
+  simp only at g ⊢
+  exact ⟨trunc32_id _ (by omega) (by omega), trunc32_id _ (by omega) (by omega)⟩
+
 theorem range_result_len_arr (lim : Limits) (r1 r2 : Bool) (size n1 n2 : Int) (out : Out) (hk : SizeOk .arr size)
     (h : opRange lim .arr r1 r2 size n1 n2 = .ok out) :
     SliceOk size out.res ∧ ∀ a ∈ out.acc, a.inBounds .arr size 0 := by
